@@ -57,9 +57,9 @@ theorem getHeader_eq_spec (m : Bytes) (fs : List (Bytes × Bytes)) (b : Bytes) (
   getHeader_eq_spec' m fs b name h
 
 /-- Apply a sequence of header settings (label / add-header, in order). -/
-def applySets (m : Msg) : List (Bytes × Bytes) → Msg
+def applySetsRaw (m : Msg) : List (Bytes × Bytes) → Msg
   | [] => m
-  | (k, v) :: rest => applySets (setHeader m k v) rest
+  | (k, v) :: rest => applySetsRaw (setHeaderRaw m k v) rest
 
 /-- Names and values a configuration can set without breaking the line structure. -/
 def SetOk (kv : Bytes × Bytes) : Prop :=
@@ -73,54 +73,54 @@ theorem setOk_ok (kv : Bytes × Bytes) (h : SetOk kv) : KeyOk kv.1 ∧ ValOk kv.
   · intro c hc; cases hc
 
 /-- The table invariant survives any sequence of settings. -/
-theorem applySets_inv (M : Msg) (kvs : List (Bytes × Bytes)) (h : TInv M.headers) :
-    TInv (applySets M kvs).headers := by
+theorem applySetsRaw_inv (M : Msg) (kvs : List (Bytes × Bytes)) (h : TInv M.headers) :
+    TInv (applySetsRaw M kvs).headers := by
   induction kvs generalizing M with
   | nil => exact h
   | cons kv rest ih =>
     obtain ⟨k, v⟩ := kv
-    exact ih _ (setHeader_step M k v h).1
+    exact ih _ (setHeaderRaw_step M k v h).1
 
 /-- A sequence of settings is a chain of steps on the file-order list. -/
-theorem applySets_good (M : Msg) (kvs : List (Bytes × Bytes)) (hM : Good M)
+theorem applySetsRaw_good (M : Msg) (kvs : List (Bytes × Bytes)) (hM : Good M)
     (hk : ∀ kv ∈ kvs, SetOk kv) :
-    Good (applySets M kvs) ∧ (applySets M kvs).body = M.body ∧
-    Chain kvs (FO M.headers) (FO (applySets M kvs).headers) := by
+    Good (applySetsRaw M kvs) ∧ (applySetsRaw M kvs).body = M.body ∧
+    Chain kvs (FO M.headers) (FO (applySetsRaw M kvs).headers) := by
   induction kvs generalizing M with
   | nil => exact ⟨hM, rfl, rfl⟩
   | cons kv rest ih =>
     obtain ⟨k, v⟩ := kv
     obtain ⟨hk1, hv1⟩ := setOk_ok (k, v) (hk (k, v) (by simp))
-    obtain ⟨g1, b1, s1⟩ := setHeader_good M k v hM hk1 hv1
-    obtain ⟨g2, b2, c2⟩ := ih (setHeader M k v) g1 (fun kv hkv => hk kv (by simp [hkv]))
+    obtain ⟨g1, b1, s1⟩ := setHeaderRaw_good M k v hM hk1 hv1
+    obtain ⟨g2, b2, c2⟩ := ih (setHeaderRaw M k v) g1 (fun kv hkv => hk kv (by simp [hkv]))
     exact ⟨g2, b2.trans b1, _, s1, c2⟩
 
 theorem rewrite_preserves (m : Bytes) (kvs : List (Bytes × Bytes)) (hwf : Spec.WF m)
     (hk : ∀ kv ∈ kvs, SetOk kv) :
-    Spec.rewriteOk m kvs (messageWrite (applySets (parseMessage m) kvs)).1 = true := by
+    Spec.rewriteOk m kvs (messageWrite (applySetsRaw (parseMessage m) kvs)).1 = true := by
   unfold Spec.WF at hwf
   obtain ⟨⟨fs, b⟩, hread⟩ := Option.isSome_iff_exists.mp hwf
   obtain ⟨-, hb0, hb⟩ := read_fields_ok m fs b hread
   obtain ⟨g0, hfo, hbody⟩ := parse_good m fs b hread
-  obtain ⟨g, hbd, hchain⟩ := applySets_good (parseMessage m) kvs g0 hk
+  obtain ⟨g, hbd, hchain⟩ := applySetsRaw_good (parseMessage m) kvs g0 hk
   rw [hfo] at hchain
-  have hbd' : (applySets (parseMessage m) kvs).body = b := hbd.trans hbody
+  have hbd' : (applySetsRaw (parseMessage m) kvs).body = b := hbd.trans hbody
   have hout := write_read _ g (by rw [hbd']; exact hb0) (by rw [hbd']; exact hb)
   rw [hbd'] at hout
   exact chain_rewriteOk m _ kvs fs _ b hread hout hchain
 
 theorem second_write_same (m : Bytes) (kvs : List (Bytes × Bytes)) :
-    let w := messageWrite (applySets (parseMessage m) kvs)
+    let w := messageWrite (applySetsRaw (parseMessage m) kvs)
     (messageWrite w.2).1 = w.1 := by
   intro w
-  have : w.2 = applySets (parseMessage m) kvs :=
-    messageWrite_snd _ (applySets_inv _ kvs (TInv_parseHeaders _))
+  have : w.2 = applySetsRaw (parseMessage m) kvs :=
+    messageWrite_snd _ (applySetsRaw_inv _ kvs (TInv_parseHeaders _))
   rw [this]
 
 theorem lookup_after_write (m : Bytes) (kvs : List (Bytes × Bytes)) (name : Bytes) :
-    let msg := applySets (parseMessage m) kvs
+    let msg := applySetsRaw (parseMessage m) kvs
     getHeader (messageWrite msg).2 name = getHeader msg name := by
   intro msg
-  rw [messageWrite_snd msg (applySets_inv _ kvs (TInv_parseHeaders _))]
+  rw [messageWrite_snd msg (applySetsRaw_inv _ kvs (TInv_parseHeaders _))]
 
 end Mdsort.Proofs
